@@ -388,6 +388,10 @@ def run(ctx):
         from ..rules import extent
         nx = extent.check_buffer_extents(ck, prog, config, 'C03-i')
         ck.min_instances('descriptor reads into same-function allocations', nx, 3)
+        # ---- j  transfers to / from fixed-size arrays (locals, statics, file scope) stay inside the array
+        from ..rules import arrayext
+        na = arrayext.check_array_extents(ck, prog, config, 'C03-j', scope='all')
+        ck.min_instances('(call, fixed-size array) sites', na, 6)
         # ---- e
         for name, table in (('zck_comp_name_from_type', 'COMP_NAME'), ('zck_hash_name_from_type', 'HASH_NAME')):
             fn = prog.need_func(name)
